@@ -186,6 +186,41 @@ impl<'a> Runner<'a> {
                     Err(s) => Err(s),
                 }
             }
+            Op::DamageReopen { back, how } => {
+                let cur = out.model.segs.keys().next_back().copied().unwrap_or(1);
+                let n = out.model.segs.get(&cur).map(|v| v.len()).unwrap_or(0);
+                let old = self.wal.take();
+                let back = *back as usize;
+                let zero = how == "zero";
+                let r = guarded(move || {
+                    drop(old);
+                    if n > back {
+                        let idx = n - 1 - back;
+                        let path = wal_dir.join(format!("wal.{:06}", cur));
+                        let mut data = std::fs::read(&path)?;
+                        let fs = 32 + 16384;
+                        if data.len() >= (idx + 1) * fs {
+                            if zero {
+                                for b in &mut data[idx * fs..(idx + 1) * fs] {
+                                    *b = 0;
+                                }
+                            } else {
+                                data[idx * fs + 32 + 4097] ^= 0x5a;
+                            }
+                            std::fs::write(&path, &data)?;
+                        }
+                    }
+                    Wal::open(wal_dir)
+                });
+                match r {
+                    Ok(Ok(nw)) => {
+                        self.wal = Some(nw);
+                        Ok(Ok(()))
+                    }
+                    Ok(Err(e)) => Ok(Err(e)),
+                    Err(s) => Err(s),
+                }
+            }
             Op::ReadPages => {
                 let r = guarded(|| w.sync());
                 if let Ok(Ok(())) = r {
